@@ -71,6 +71,9 @@ func programs(t *testing.T, backend sim.Backend) {
 		conc1 := rapid.Bool().Draw(t, "concurrency1")
 		keys, splits, steps := prog.Gen(t, backend, 2)
 		res := prog.Run(backend, nStores, batch1, conc1, keys, splits, steps, map[string]bool{})
+		if r := res.W.Cl.Runaway(); r != "" {
+			t.Fatalf("VERIF-INFRA: a call did not terminate (judged by C02 / C05): %s\n  program: %s", r, prog.String(steps))
+		}
 		if res.Hung != "" || res.Infra != "" {
 			t.Fatalf("VERIF-INFRA: %s %s\n  program: %s", res.Hung, res.Infra, prog.String(steps))
 		}
@@ -104,6 +107,9 @@ func faults(t *testing.T, backend sim.Backend) {
 			race = append(race, scen.GenReader(t, backend, p.Keys, 300+j, 1, backend == sim.Mock)...)
 		}
 		eval := func(o scen.Outcome, plan string) {
+			if r := o.World.Cl.Runaway(); r != "" {
+				t.Fatalf("VERIF-INFRA: a call did not terminate (judged by C02 / C05): %s | plan=%s | %s", r, plan, p)
+			}
 			if o.Hung != "" || o.Infra != "" {
 				t.Fatalf("VERIF-INFRA: %s %s | plan=%s | %s", o.Hung, o.Infra, plan, p)
 			}
@@ -190,6 +196,9 @@ func TestMonitorRegroup(t *testing.T) {
 		kv.TxnCommitBatchSize.Store(size)
 		res := prog.Run(sim.Mock, nStores, false, rapid.Bool().Draw(t, "conc1"), keys, splits, steps, map[string]bool{})
 		kv.TxnCommitBatchSize.Store(old)
+		if r := res.W.Cl.Runaway(); r != "" {
+			t.Fatalf("VERIF-INFRA: a call did not terminate (judged by C02 / C05): %s\n  program: %s", r, prog.String(steps))
+		}
 		if res.Hung != "" || res.Infra != "" {
 			t.Fatalf("VERIF-INFRA: %s %s\n  program: %s", res.Hung, res.Infra, prog.String(steps))
 		}
@@ -229,6 +238,9 @@ func TestMonitorHeartBeats(t *testing.T) {
 		}
 		steps = append(steps, end, &sim.Step{Op: "sleep", Ms: 85})
 		res := prog.Run(backend, 1, false, true, keys, nil, steps, map[string]bool{})
+		if r := res.W.Cl.Runaway(); r != "" {
+			t.Fatalf("VERIF-INFRA: a call did not terminate (judged by C02 / C05): %s\n  program: %s", r, prog.String(steps))
+		}
 		if res.Hung != "" || res.Infra != "" {
 			t.Fatalf("VERIF-INFRA: %s %s\n  program: %s", res.Hung, res.Infra, prog.String(steps))
 		}
